@@ -737,15 +737,16 @@ def _composite_keystone_aperture(x, y, center_circle_diameter,
             # find the four corners; c = corner
             # because keystones are Problematic (TM), the "upper" vertex
             # may be outside the usual corners
+            # the angular tests below compare t and t+2pi (t from arctan2, in
+            # [-pi,pi]) to the interval (lo, hi); that is membership modulo one
+            # turn exactly when -pi <= lo and hi = lo + arc <= 3pi, so bring the
+            # start of the arc into [-pi,pi] whatever the rotation of the ring
             lo = angle
-            hi = angle+arc_rad
-            while hi > 2*np.pi:
-                hi = hi - 2*np.pi
-            while lo > 2*np.pi:
+            while lo > np.pi:
                 lo = lo - 2*np.pi
-
-            if hi < lo:
-                lo, hi = hi, lo
+            while lo < -np.pi:
+                lo = lo + 2*np.pi
+            hi = lo + arc_rad
 
             mid = lo + arc_rad / 2
             center_angles.append(mid)
